@@ -1024,11 +1024,26 @@ class Interp:
             raise OutOfSubset('nested comprehension over a sequence of unknown length')
         g = e.generators[0]
         interp = self
+        # the element is evaluated lazily (for a generic index, at contract-check time): snapshot the enclosing scopes so
+        # that later rebinding of a name (e.g. `res = {.. res[k] ..}`) does not change what the comprehension saw
+        def snap(en):
+            if en is None:
+                return None
+            if en.parent is None:
+                return en               # module / builtin scope
+            return Env(dict(en.vars), snap(en.parent))
+        env = snap(env)
 
         def at(i):
             cenv = Env({'__comprehension__': True}, env)
-            interp.assign(g.target, it.get(i), cenv)
-            cond = True
+            if hasattr(it, 'at') and hasattr(it, 'src'):
+                # comprehension over a (filtered) comprehension: conditions compose
+                cond, el0 = it.at(i)
+                if getattr(it, 'kind', None) == 'dict' and not hasattr(it, 'part'):
+                    el0 = el0[0]          # iterating a dict yields its keys
+            else:
+                cond, el0 = True, it.get(i)
+            interp.assign(g.target, el0, cenv)
             for c in g.ifs:
                 t = interp.symtruth(interp.eval(c, cenv))
                 if t is None:
